@@ -426,8 +426,56 @@ def o310(ctx):
                             "instead of the particle's own numbers, and the caller's list is altered by an export", site, m)
 
 
+def o311(ctx):
+    """version detection: the block names (and, from 3.1 on, the name columns) decide, whether or not an optics block is present"""
+    q = CLS + ".get_version_from_file"
+    m, fn = ctx.prog.func(q)
+    ctx.touched(q, CLS + ".set_version")
+    base31 = ["rlnCoordinateX", "rlnCoordinateY", "rlnCoordinateZ", "rlnAngleRot", "rlnAngleTilt", "rlnAnglePsi", "rlnMicrographName",
+              "rlnImageName", "rlnOriginXAngst", "rlnOriginYAngst", "rlnOriginZAngst", "rlnClassNumber"]
+    base30 = [c.replace("Angst", "") for c in base31]
+    base40 = [c for c in base31 if c not in ("rlnMicrographName", "rlnImageName")] + ["rlnTomoName", "rlnTomoParticleName"]
+    optics = ["rlnOpticsGroup", "rlnOpticsGroupName", "rlnImagePixelSize"]
+    cases = [(["data_"], [base30], 3.0), (["data_particles"], [base31], 3.1), (["data_optics", "data_particles"], [optics, base31], 3.1),
+             (["data_particles"], [base40], 4.0), (["data_optics", "data_particles"], [optics, base40], 4.0),
+             (["data_optics", "data_particles"], [optics, [c for c in base40 if c != "rlnTomoName"]], 4.0),
+             (["data_optics", "data_particles"], [optics, [c for c in base40 if c != "rlnTomoParticleName"]], 4.0),
+             (["data_general", "data_optics", "data_particles"], [["rlnTomoSubTomosAre2DStacks"], optics, base40], 4.0)]
+    for specs, cols, want in cases:
+        frames = []
+        for k_, cs in enumerate(cols):
+            f_ = Frame({c: sym(f"blk{k_}:{c}") for c in cs}, list(cs), prefix=f"blk{k_}:", name=f"block{k_}")
+            f_.space = Space(f"block{k_}", how="root")
+            frames.append(f_)
+        it = Interp(ctx.prog)
+        r = it.run(q, [Seq(frames, "list"), Seq([K(x) for x in specs], "list")], {}, self_obj=ClassRef(CLS))
+        ctx.count(1, {"blocks": specs, "name columns": [c for c in cols[-1] if "Name" in c], "version": tm.show(to_term(r.ret))})
+        got = pyval(r.ret) if is_pyconst(r.ret) else None
+        if got is None and not is_pyconst(r.ret):
+            raise Unsupported(f"version of a file with blocks {specs} is not decided statically: {tm.show(to_term(r.ret))[:80]}", fn)
+        if got != want:
+            ctx.finding(q, f"blocks {specs}", f"a STAR file with the blocks {specs} and the particle columns "
+                        f"{[c for c in cols[-1] if 'Name' in c or 'Origin' in c][:4]} is a RELION {want} file; the code reads it as {got} "
+                        "(the optics block is optional: origins in Angstrom would be dropped / shifts not scaled)", fn, m)
+    # version from the table alone (DataFrame input)
+    q2 = CLS + ".set_version"
+    m2, fn2 = ctx.prog.func(q2)
+    for cs, want in ((base30, 3.0), (base31, 3.1), (base40, 4.0)):
+        me = Obj(CLS, {"version": K(None)})
+        f_ = Frame({c: sym("in:" + c) for c in cs}, list(cs), prefix="in:", name="input")
+        f_.space = Space("input", how="root")
+        it = Interp(ctx.prog)
+        it.run(q2, [f_], {}, self_obj=me)
+        v_ = me.attrs.get("version")
+        ctx.count(1, {"table columns": [c for c in cs if "Name" in c or "OriginX" in c], "version": tm.show(to_term(v_))})
+        if not (is_pyconst(v_) and pyval(v_) == want):
+            ctx.finding(q2, f"columns of a {want} table", f"a table with the columns of RELION {want} must be recognised as version {want}; "
+                        f"the code sets {tm.show(to_term(v_))[:40]}", fn2, m2)
+
+
 def _obligations():
     return [
+        Obligation("O3.11", "version detection from block names / name columns, with and without an optics block", o311, floor=11),
         Obligation("O3.10", "write_out leaves the exported list unchanged (all versions, optics on/off)", o310, floor=6),
         Obligation("O3.9", "import: half-set renumbering automaton -- 1 <-> odd, 2 <-> even, strictly increasing (finite abstraction, exhaustive)", o39, floor=12),
         Obligation("O3.1", "export: ZYZ(rlnAngleRot,Tilt,Psi) is the inverse of the particle rotation (3.0/3.1/4.0)", o31, floor=3),
